@@ -1,12 +1,13 @@
 /-
   C14 — the nested dict form: `to_dict_list()` mirrors the tree, and `from_dict(to_dict_list())`
-  rebuilds it (string data, no mapper).
+  rebuilds it (string data without mapper: D2; any data objects with a pair of inverse mappers: D3).
   Property theorems only; helper lemmas live in Nutree/Lemmas/SerialDict.lean (and SerialAdd.lean).
 -/
 import Nutree.Model.Serial
 import Nutree.Model.Filter
 import Nutree.Spec.WF
 import Nutree.Lemmas.SerialDict
+import Nutree.Lemmas.SerialDictMap
 namespace Nutree.C14
 open Nutree T Nutree.Ser Nutree.Flt.Spec
 
@@ -91,5 +92,72 @@ theorem fromDict_toDict (strAtom : String → Atom) (ks : List T) (fuel : Nat)
       shL t'.root.kids = shL ks ∧ WF t' := by
   obtain ⟨t', hrun, hsh, hwf, _⟩ := fromDict_toDict_counter strAtom ks fuel hdata htop hsib hkind hfuel
   exact ⟨t', _, hrun, hsh, hwf⟩
+
+/-! ### D3 — objects with a pair of inverse mappers -/
+
+/-- **Round trip through the nested dict form with a pair of inverse mappers**
+(`Tree.from_dict(tree.to_dict_list(mapper=ser), mapper=deser)`), for ANY data objects.
+"Inverse" is `Ser.MapperOK` at every node: the serialisation mapper leaves the entries `data_id` /
+`children` alone, and the reading side (`deser`, or `item["data"]` when `deser = none`) finds the node's
+data object again from the object written for that node.  Other hypotheses as in `fromDict_toDict`.
+Then `from_dict` succeeds on the empty tree, consumes one fresh id per node, and the rebuilt forest has
+the same shape, data objects and data ids (custom and default ones); the result is a well-formed plain tree. -/
+theorem fromDict_toDict_mapper (sa : String → Atom) (ser : T → Fields → Option Fields)
+    (deser : Option (Fields → DRes)) (ks : List T) (fuel : Nat)
+    (hmap : ∀ n ∈ flatL ks, MapperOK sa ser deser n)
+    (htop : (ks.map T.did).Nodup)
+    (hsib : ∀ x ∈ flatL ks, (x.kids.map T.did).Nodup)
+    (hkind : ∀ n ∈ flatL ks, n.kind = none)
+    (hfuel : heightL ks ≤ fuel) :
+    ∃ t', fromDictL sa deser fuel (toDictL ser ks) {} 0 1 = .ok (t', 1 + (flatL ks).length) ∧
+      shL t'.root.kids = shL ks ∧ WF t' ∧ t'.typed = false ∧ t'.hook = none := by
+  have hroot : findT 0 ({} : Tree).root = some (mkRoot []) := by
+    show findT 0 (mkRoot []) = some (mkRoot [])
+    rw [mkRoot, findT_node]; rfl
+  have hfresh : C01.Fresh ({} : Tree) 1 := by
+    refine ⟨Nat.one_pos, ?_⟩
+    intro x hx
+    have : x = mkRoot [] := by
+      have : x ∈ flat (mkRoot []) := hx
+      rw [mkRoot, flat_node, flatL_nil] at this
+      simpa [mkRoot] using this
+    subst this
+    exact Nat.one_pos
+  obtain ⟨t', ks', hrun, hr, hsh, hwf, _, hty, hhk⟩ :=
+    fromDictL_toDictL_gen sa ser deser ks fuel {} 0 1 (mkRoot []) C01.WF_init hfresh rfl rfl hroot
+      (by intro c hc; simp [mkRoot] at hc) htop hsib hfuel hmap hkind
+  refine ⟨t', hrun, ?_, hwf, hty, hhk⟩
+  have : t'.root = mkRoot ks' := by
+    rw [hr]; exact modT_root_append ks'
+  rw [this]; exact hsh
+
+/-- without mapper the pair (identity, `item["data"]`) is inverse at every node whose string `sa` finds again:
+`fromDict_toDict` is the instance `ser = fun _ _ => none`, `deser = none` of `fromDict_toDict_mapper`. -/
+theorem mapperOK_none (sa : String → Atom) (n : T) (h : sa n.name = n.data) :
+    MapperOK sa (fun _ _ => none) none n := by
+  have hm : mapped (fun _ _ => none) n = baseFields n := rfl
+  refine ⟨by rw [hm], ?_, ?_⟩
+  · rw [hm]; by_cases hc : n.did = n.data.hid <;> simp [lookupF, baseFields, List.lookup, hc]
+  · have hd : lookupF (encFields (fun _ _ => none) n) "data" = some (.str n.name) := by
+      unfold encFields
+      split
+      · rw [hm]; simp [lookupF, baseFields]
+      · rw [lookupF, lookup_setField_of_ne _ _ (by decide), hm]; simp [baseFields]
+    simp only [itemData, hd, scalarAtom, h]
+
+/-- non-vacuity of D3: two dataclass-like objects (no `str` data), one of them twice (a clone under an explicit id
+and under its default id), a mapper that stores the object number under `"o"` and its inverse. -/
+example :
+    let a : Atom := { obj := 5, eqc := 5, hid := .int 55, truthy := true, isStr := false, name := "Item(5)" }
+    let b : Atom := { obj := 6, eqc := 6, hid := .int 66, truthy := false, isStr := false, name := "Item(6)" }
+    let ks : List T := [.node { id := 1, data := a, did := .int 55 } [.node { id := 2, data := b, did := .str "x" } []],
+                        .node { id := 3, data := b, did := .int 66 } []]
+    let ser : T → Fields → Option Fields := fun n d => some (d ++ [("o", .num n.data.obj)])
+    let deser : Fields → DRes := fun d => match lookupF d "o" with
+      | some (.num 5) => .atom a | some (.num 6) => .atom b | _ => .error
+    ∀ n ∈ flatL ks, MapperOK (fun _ => a) ser (some deser) n := by
+  intro a b ks ser deser n hn
+  simp only [ks, flatL, flat, List.append_nil, List.cons_append, List.nil_append, List.mem_cons, List.not_mem_nil, or_false] at hn
+  rcases hn with rfl | rfl | rfl <;> exact ⟨rfl, rfl, rfl⟩
 
 end Nutree.C14
